@@ -122,6 +122,7 @@ pub enum ReverseStep {
     PopSpecial,
     PushSpecial(Special),
     DropLocal(usize),
+    SetLocal(usize, Cell),
     SwapRef(CellRef, Cell),
 }
 
@@ -1095,12 +1096,15 @@ impl State {
                 let val = self.pop_data()?;
                 let frame = self.top_frame()?;
                 if idx < frame.locals.len() {
-                    frame.locals[idx] = val;
+                    let old = std::mem::replace(&mut frame.locals[idx], val);
+                    if self.is_recording() {
+                        self.add_reverse_step(ReverseStep::SetLocal(idx, old));
+                    }
                 } else {
                     frame.locals.push_back_mut(val);
-                }
-                if self.is_recording() {
-                    self.add_reverse_step(ReverseStep::DropLocal(idx));
+                    if self.is_recording() {
+                        self.add_reverse_step(ReverseStep::DropLocal(idx));
+                    }
                 }
                 self.next_ip();
             }
@@ -1270,6 +1274,14 @@ impl State {
             ReverseStep::DropLocal(_) => {
                 let f = self.top_frame()?;
                 f.locals.drop_last_mut();
+            }
+            ReverseStep::SetLocal(idx, val) => {
+                let f = self.top_frame()?;
+                if idx < f.locals.len() {
+                    f.locals[idx] = val;
+                } else {
+                    return Err(Xerr::local_out_of_bounds(idx));
+                }
             }
             ReverseStep::SwapRef(cref, val) => {
                 let idx = cref.index();
